@@ -610,10 +610,14 @@ impl Prop for C17 {
          modules in a seeded order with each module delivered 1-3 times (immediate or late duplicates) and seeded \
          batching (one `use` per input, several per input, or nested in a synthetic wrapper module). Every delivery \
          must succeed; a delivery consisting only of already delivered modules must change nothing (names immediately, \
-         everything else through the final digest); the final digest (names; value and type of every constant; signature of every function; \
-         defining expression, base representation, aliases and prefix flags of every unit; base representation of \
-         every dimension) must equal the digest of the canonical delivery (sorted, one by one, once each) of the \
-         same set, and the set of files fetched must be the same. Non-trivial = at least two modules and a \
+         everything else through the final digest); the final digest (names; value and type of every constant; \
+         signature and documentation metadata of every function; complete info text - defining expression and \
+         rendered type -, base representation, aliases, prefix flags and naming metadata of every unit; base \
+         representation of every dimension) must equal the digest of the canonical delivery (sorted, one by one, once each) of the \
+         same set, and the set of files fetched must be the same. 1 delivery run in 5 is served by numbat's own \
+         importers (embedded modules, file system, or a user directory with a seeded subset of the modules chained \
+         before the embedded ones) instead of the instrumented one; one fixed run compares the embedded module \
+         list with the module directory. Non-trivial = at least two modules and a \
          non-canonical order or a duplicate. Distinct = distinct fingerprint over (deliveries, digest)."
             .to_string()
     }
